@@ -133,16 +133,22 @@ Qed.
 Lemma J_acct_L : forall a, J_acct w a -> L_acct a.
 Proof.
   intros a H. unfold AvmResourcesSpec.J_acct, shared in H. unfold L_acct, here_acct.
-  destruct H as [H|[H|[[Hz H]|[H|[H|[H|H]]]]]]; auto.
-  left. right. left. exists (RAddr a). auto.
-  right. right. left. auto.
+  destruct H as [H|[H|[[Hz H]|[H|[H|[H|H]]]]]].
+  - auto.
+  - auto.
+  - left. right. left. exists (RAddr a). auto.
+  - auto.
+  - right. right. left. auto.
+  - do 3 right. left. auto.
+  - do 4 right. auto.
 Qed.
 Lemma L_acct_J : forall a, a <> 0 -> L_acct a -> J_acct w a.
 Proof.
   intros a Hz H. unfold AvmResourcesSpec.J_acct, shared. unfold L_acct in H.
-  destruct H as [H|[H|[H|[H|H]]]]; auto.
+  destruct H as [H|[H|[H|[H|H]]]].
   - destruct (here_strict a Hz H) as [H'|[H'|H']]; auto.
-  - right. right. right. right. left. exact H.
+  - do 3 right. left. exact H.
+  - do 4 right. left. exact H.
   - do 5 right. left. exact H.
   - do 6 right. exact H.
 Qed.
@@ -162,15 +168,22 @@ Qed.
 Lemma J_app_L : forall p, J_app w p -> L_app p.
 Proof.
   intros p H. unfold J_app, shared in H. unfold L_app.
-  destruct H as [[Hz H]|[H|[H|[H|H]]]]; auto. left. exists (RApp p). auto.
-  right. right. right. right. exact H.
+  destruct H as [[Hz H]|[H|[H|[H|H]]]].
+  - left. exists (RApp p). auto.
+  - auto.
+  - auto.
+  - auto.
+  - do 4 right. exact H.
 Qed.
 Lemma L_app_J : forall p, p <> 0 -> L_app p -> J_app w p.
 Proof.
   intros p Hz H. unfold J_app, shared. unfold L_app in H.
-  destruct H as [[rr [H1 H2]]|[H|[H|[H|H]]]]; auto.
-  left. split; auto. rewrite <- (rr_app_nz rr p H2 Hz). exact H1.
-  right. right. right. right. exact H.
+  destruct H as [[rr [H1 H2]]|[H|[H|[H|H]]]].
+  - left. split; auto. rewrite <- (rr_app_nz rr p H2 Hz). exact H1.
+  - auto.
+  - auto.
+  - auto.
+  - do 4 right. exact H.
 Qed.
 
 Lemma available_account_sound : forall a, available_account appaddr cx a = true -> a <> 0 -> J_acct w a.
